@@ -17,7 +17,7 @@
      mcmap     Unicode cmap of the subsetted font in memory, before it is compiled, same form; fmt2 = it holds a
                format-2 subtable all of whose codes are below 256
      shapes    HarfBuzz: << [t |-> text, a |-> original: << <<gid, xAdv, yAdv, xOff, yOff>> >>, b |-> result] >>
-     kept      << [g, adv |-> <<before, after>>, lsb |-> <<before, after>>, cls |-> <<GDEF glyph class before, after>>,
+     kept      << [g, adv |-> <<before, after>>, lsb |-> <<before, after>>, cls |-> <<GDEF glyph class before, after>>, cw |-> <<CFF charstring width x 1000 before, after>>,
                    loc |-> << <<outline id before, after, advance before, after>> per location >>] >>
      res       (generated fonts only) the full projection of the saved result
      unreadable (only if the library cannot read the saved result back: a table or glyph fails to decompile) the exception text
@@ -138,11 +138,13 @@ KeptClause(t) ==
       kl == FirstBad(t.kept, LAMBDA r : Exempt(t, r.g) \/ r.lsb[1] = r.lsb[2])
       ko == FirstBad(t.kept, LAMBDA r : Exempt(t, r.g) \/ \A j \in 1..Len(r.loc) : r.loc[j][1] = r.loc[j][2])
       kv == FirstBad(t.kept, LAMBDA r : Exempt(t, r.g) \/ \A j \in 1..Len(r.loc) : r.loc[j][3] = r.loc[j][4])
+      kw == FirstBad(t.kept, LAMBDA r : "cw" \notin DOMAIN r \/ r.cw[1] = r.cw[2])     \* CFF charstring width (x 1000)
       kc == FirstBad(t.kept, LAMBDA r : r.g \notin Stg("gsubed") \/ r.cls[1] = r.cls[2])    \* layout tables cover glyphs_gsubed
   IN IF ka # 0 THEN <<"kept:advance-width-changed", t.kept[ka].g>>
      ELSE IF kl # 0 THEN <<"kept:side-bearing-changed", t.kept[kl].g>>
      ELSE IF ko # 0 THEN <<"kept:outline-or-its-variation-changed", t.kept[ko].g>>
      ELSE IF kv # 0 THEN <<"kept:advance-variation-changed", t.kept[kv].g>>
+     ELSE IF kw # 0 THEN <<"kept:cff-charstring-width-changed", t.kept[kw].g>>
      ELSE IF kc # 0 THEN <<"kept:gdef-glyph-class-changed", t.kept[kc].g>>
      ELSE None
 
